@@ -137,6 +137,8 @@ def State.init : State :=
 structure Env where
   force : Bool          -- forceReload
   post : Bool           -- the post-start step (finishSettingUp) fails
+  adm : Nat             -- admin endpoint: 0 disabled · 1 enabled (private unix socket) · 2 enabled and
+                        -- provisioning the admin routers (an `admin.api` module) fails
   blocked : List Nat    -- addresses somebody else holds without SO_REUSEPORT
   pp : List Nat         -- app names in the order provisionContext ranges AppsRaw
   ps : List Nat         -- app names in the order the start loop ranges cfg.apps
@@ -146,7 +148,7 @@ inductive Res
   | ok | same
   | errBody | errPath | errIndex | errDecode
   | errUnknown | errModDecode | errProvision | errValidate
-  | errStart | errPost
+  | errStart | errPost | errAdmin
 deriving DecidableEq, Repr
 
 def Res.accepted : Res → Bool
@@ -198,10 +200,10 @@ def faultRes : Nat → Res
 def loadModAt (i : Inst) (m : Mod) (s : State) (live : List Live) : State × List Live × Option Res :=
   if m.isRp then
     -- reverseproxy.Handler: Provision takes one `hosts` reference per upstream (provisionUpstream,
-    -- reverseproxy.go:351) — but only if it gets that far; Cleanup (reverseproxy.go:392) does
-    -- hosts.Delete for every configured upstream regardless. LoadModuleByID calls Cleanup when
-    -- Provision fails, so an EARLY failure releases a reference that was never taken.
-    if m.fault = 3 then ({ s with mpool := decr s.mpool m.key }, live, some .errProvision)
+    -- reverseproxy.go:351) if it gets that far; since fix d6561d4 Cleanup (called by
+    -- LoadModuleByID when Provision failed) releases only the upstreams whose Host was set, so
+    -- an EARLY failure (fault 3) releases nothing; a late one (fault 4) gives back what it took.
+    if m.fault = 3 then (s, live, some .errProvision)
     else if m.fault = 4 then ({ s with mpool := decr (incr s.mpool m.key) m.key }, live, some .errModDecode)
     else ({ s with mpool := incr s.mpool m.key }, live ++ [⟨i, some m.key, true⟩], none)
   else if m.fault = 3 then
@@ -392,6 +394,8 @@ def run (cid : Nat) (c : Cfg) (e : Env) (s : State) : State × Option Ctx × Res
   | (s1, _, some r) => (s1, none, r)
   | (s1, none, none) => (s1, none, .errProvision)   -- unreachable
   | (s1, some ctx, none) =>
+    -- ctx.cfg.Admin.provisionAdminRouters(ctx) (caddy.go:427-432): on error cancel, nothing started
+    if e.adm = 2 then (cancel cid ctx.cbs ctx.wkeys ctx.live s1, none, .errAdmin) else
     match startApps cid e.blocked [] (order e.ps ctx.apps) s1 with
     | (s2, false) => (cancel cid ctx.cbs ctx.wkeys ctx.live s2, none, .errStart)
     | (s2, true) =>
